@@ -36,7 +36,7 @@ class BuildFailed(Exception):
         self.log = log
 
 
-def prophyc_cpp(text, workdir, name='sch', full=True, raw=False, python=False, files=None):
+def prophyc_cpp(text, workdir, name='sch', full=True, raw=False, python=False, files=None, patch=None):
     """Run prophyc for the C++ back-ends in-process. Returns (gen_dir, nodes)."""
     from . import pyrt
     src = os.path.join(workdir, name + '.prophy')
@@ -51,6 +51,11 @@ def prophyc_cpp(text, workdir, name='sch', full=True, raw=False, python=False, f
         args += ['--cpp_out', gen]
     if python:
         args += ['--python_out', gen]
+    if patch:
+        pp = os.path.join(workdir, name + '.patch')
+        with open(pp, 'w') as f:
+            f.write(patch)
+        args += ['--patch', pp]
     for fn, ftext in sorted((files or {}).items()):
         # further schema files next to the main one (it may #include them); all are inputs of the same run
         fp = os.path.join(workdir, fn)
